@@ -720,6 +720,7 @@ err_t dstuPointCompress(octet xpoint[], const dstu_params* params,
 	// x == 0?
 	if (wwIsZero(x, ec->f->n))
 	{
+		memSetZero(xpoint, ec->f->no);
 		dstuEcClose(ec);
 		return ERR_OK;
 	}
@@ -780,8 +781,9 @@ err_t dstuPointRecover(octet point[], const dstu_params* params,
 		// b <- b^{2^{m - 1}}
 		while (--m)
 			qrSqr(ec->B, ec->B, ec->f, stack);
-		// выгрузить y-координату
-		qrTo(point + ec->f->n, ec->B, ec->f, stack);
+		// выгрузить точку (0, y)
+		memSetZero(point, ec->f->no);
+		qrTo(point + ec->f->no, ec->B, ec->f, stack);
 		// все нормально
 		dstuEcClose(ec);
 		return ERR_OK;
